@@ -160,3 +160,63 @@ Definition cop_ok (g : cgraph) (o : cop) : bool :=
                                  (seq 0 (length (cgS g)))
   | CReset => true
   end.
+
+(* ------------------------------------------------------------------ cooperative learned model *)
+(* statistics of row j of node i in a joint history *)
+Definition ctot (g : cgraph) (h : list crec) (i j : nat) : nat := length (row_rewards (map (cproj g i) h) j).
+Definition cfreq (g : cgraph) (h : list crec) (i j v : nat) : Q :=
+  inj (row_count (map (cproj g i) h) j v) / inj (ctot g h i j).
+Definition cmean (g : cgraph) (h : list crec) (i j : nat) : Q := mean (row_rewards (map (cproj g i) h) j).
+
+(* the rows a sync form touches *)
+Definition all_rows (g : cgraph) : list (nat * nat) :=
+  flat_map (fun i => map (fun j => (i, j)) (seq 0 (cg_size g i))) (seq 0 (length (cgS g))).
+Definition id_rows (g : cgraph) (ids : list nat) : list (nat * nat) :=
+  map (fun i => (i, nth i ids 0%nat)) (seq 0 (length (cgS g))).
+Definition sa_rows (g : cgraph) (s a : list nat) : list (nat * nat) :=
+  map (fun i => (i, cg_id g i s a)) (seq 0 (length (cgS g))).
+Definition pair_in (i j : nat) (l : list (nat * nat)) : bool :=
+  existsb (fun p => (fst p =? i)%nat && (snd p =? j)%nat) l.
+
+(* which rows are currently in step with the experience: synced (with data) and not hit by a record since *)
+Definition cmark : Type := nat -> nat -> bool.
+Definition cmark_sync (g : cgraph) (h : list crec) (mk : cmark) (l : list (nat * nat)) : cmark :=
+  fun i j => mk i j || (pair_in i j l && (0 <? ctot g h i j)%nat).
+Definition ctrk_step (g : cgraph) (st : list crec * cmark) (o : cop2) : list crec * cmark :=
+  let '(h, mk) := st in
+  match o with
+  | C2Exp (CRecord s a s1 rw) => (h ++ [(s, a, s1, rw)], fun i j => if (j =? cg_id g i s a)%nat then false else mk i j)
+  | C2Exp CReset => ([], fun _ _ => false)
+  | C2SyncAll => (h, cmark_sync g h mk (all_rows g))
+  | C2SyncSA s a => (h, cmark_sync g h mk (sa_rows g s a))
+  | C2SyncIds ids => (h, cmark_sync g h mk (id_rows g ids))
+  end.
+Definition ctrack (g : cgraph) (pre : list cop) (toSync : bool) (post : list cop2) : list crec * cmark :=
+  let h0 := chist_of pre in
+  fold_left (ctrk_step g) post (h0, fun i j => toSync && pair_in i j (all_rows g) && (0 <? ctot g h0 i j)%nat).
+
+Definition cop2_ok (g : cgraph) (o : cop2) : bool :=
+  match o with
+  | C2Exp o' => cop_ok g o'
+  | C2SyncIds ids => forallb (fun i => (nth i ids 0 <? cg_size g i)%nat) (seq 0 (length (cgS g)))
+  | C2SyncSA s a => forallb (fun i => (cg_id g i s a <? cg_size g i)%nat) (seq 0 (length (cgS g)))
+  | C2SyncAll => true
+  end.
+(* row (i,j) is never the target of a record *)
+Definition cnever (g : cgraph) (i j : nat) (o : cop) : bool :=
+  match o with CRecord s a _ _ => negb (cg_id g i s a =? j)%nat | CReset => true end.
+Definition cnever2 (g : cgraph) (i j : nat) (o : cop2) : bool :=
+  match o with C2Exp o' => cnever g i j o' | _ => true end.
+
+(* ------------------------------------------------------------------ factored bandit experience *)
+Definition fbhist_step (h : list (list nat * list Q)) (o : fbop) : list (list nat * list Q) :=
+  match o with FRecord a rw => h ++ [(a, rw)] | FReset => [] end.
+Definition fbhist_of (ops : list fbop) : list (list nat * list Q) := fold_left fbhist_step ops [].
+(* what group i sees of a joint record: (local arm, local reward) *)
+Definition fbproj (A : list nat) (deps : list (list nat)) (i : nat) (x : list nat * list Q) : nat * Q :=
+  (pidx (nth i deps []) A (fst x), nth i (snd x) 0).
+Definition fbop_ok (A : list nat) (deps : list (list nat)) (o : fbop) : bool :=
+  match o with
+  | FRecord a _ => forallb (fun i => (pidx (nth i deps []) A a <? pspace (nth i deps []) A)%nat) (seq 0 (length deps))
+  | FReset => true
+  end.
